@@ -304,12 +304,13 @@ func readServiceInfo(r io.Reader) (s ServiceInfo, err error) {
 		if err != nil {
 			return b, fmt.Errorf("read slice size: %s", err)
 		}
-		b = make([]string, size)
+		b = make([]string, 0)
 		for i := 0; i < int(size); i++ {
-			b[i], err = basic.ReadString(r)
+			v, err := basic.ReadString(r)
 			if err != nil {
 				return b, fmt.Errorf("read slice value: %s", err)
 			}
+			b = append(b, v)
 		}
 		return b, nil
 	}(); err != nil {
@@ -741,7 +742,7 @@ func (p *proxyLogListener) GetFilters() (ret map[string]int32, err error) {
 		if err != nil {
 			return m, fmt.Errorf("read map size: %s", err)
 		}
-		m = make(map[string]int32, size)
+		m = make(map[string]int32)
 		for i := 0; i < int(size); i++ {
 			k, err := basic.ReadString(&buf)
 			if err != nil {
@@ -812,7 +813,7 @@ func (p *proxyLogListener) SubscribeFilters() (func(), chan map[string]int32, er
 				if err != nil {
 					return m, fmt.Errorf("read map size: %s", err)
 				}
-				m = make(map[string]int32, size)
+				m = make(map[string]int32)
 				for i := 0; i < int(size); i++ {
 					k, err := basic.ReadString(buf)
 					if err != nil {
